@@ -5,7 +5,11 @@ package props
 import (
 	"errors"
 	"fmt"
+	"strings"
 	"testing"
+	"time"
+
+	"github.com/anishathalye/porcupine"
 
 	"pgregory.net/rapid"
 
@@ -28,6 +32,9 @@ type C08RCase struct {
 	Workers [][]C08ROp `json:"workers"`
 	AbortAt int        `json:"abort_at"`
 	Tape    []uint16   `json:"tape"`
+	// Disabled may contain "auto." to switch off the yield points that the
+	// build inserts before every mutex acquisition of reporter.go.
+	Disabled []string `json:"disabled,omitempty"`
 }
 
 func genC08R(t *rapid.T) C08RCase {
@@ -56,29 +63,82 @@ func genC08R(t *rapid.T) C08RCase {
 	}
 	c.AbortAt = rapid.IntRange(0, 6).Draw(t, "abortAt")
 	c.Tape = genTape(t, 100)
+	if rapid.IntRange(0, 2).Draw(t, "autoOff") == 0 {
+		c.Disabled = []string{"auto."}
+	}
 	return c
 }
 
-type c08rCall struct {
-	worker int
-	op     C08ROp
-	ret    error
+type c08rIn struct {
+	Worker int
+	Kind   string
+	Root   bool
 }
 
-type handlerModel struct {
-	err          error
-	errsReported bool
+// c08rState is the sequential model of a root handler with per-goroutine
+// sub-handlers. Errors are small codes: 0 nil, 1 the reporter's abort error,
+// 2 ErrInvalidSource, 10+i the non-positional error of worker i.
+type c08rState struct {
+	RootErr int
+	RootRep bool
+	SubErr  [4]int
+	SubRep  [4]bool
+	NErr    int
 }
 
-func (h *handlerModel) Error() error {
-	if h.errsReported && h.err == nil {
-		return reporter.ErrInvalidSource
+func c08rModel(abortAt int) porcupine.Model {
+	return porcupine.Model{
+		Init: func() interface{} { return c08rState{} },
+		Step: func(state, input, output interface{}) (bool, interface{}) {
+			st := state.(c08rState)
+			in := input.(c08rIn)
+			out := output.(int)
+			switch in.Kind {
+			case "errf", "plain":
+				ret := st.RootErr
+				if ret == 0 {
+					if in.Kind == "errf" {
+						st.RootRep = true
+						st.NErr++
+						if abortAt > 0 && st.NErr == abortAt {
+							st.RootErr = 1
+						}
+						ret = st.RootErr
+					} else {
+						st.RootErr = 10 + in.Worker
+						ret = st.RootErr
+					}
+				}
+				if !in.Root {
+					if in.Kind == "errf" {
+						st.SubRep[in.Worker] = true
+					}
+					st.SubErr[in.Worker] = ret
+				}
+				return out == ret, st
+			case "warnf":
+				return true, st
+			case "error":
+				e, rep := st.RootErr, st.RootRep
+				if !in.Root {
+					e, rep = st.SubErr[in.Worker], st.SubRep[in.Worker]
+				}
+				if rep && e == 0 {
+					e = 2
+				}
+				return out == e, st
+			case "reporter-error":
+				e := st.RootErr
+				if !in.Root {
+					e = st.SubErr[in.Worker]
+				}
+				return out == e, st
+			}
+			return false, st
+		},
+		DescribeOperation: func(input, output interface{}) string { return fmt.Sprintf("%+v -> %v", input, output) },
 	}
-	return h.err
 }
-
-//go:norace
-func recordC08R(calls *[]c08rCall, c c08rCall) { *calls = append(*calls, c) }
 
 func execC08R(t *testing.T, c C08RCase) *Verdict {
 	st := sim.S()
@@ -108,7 +168,8 @@ func execC08R(t *testing.T, c C08RCase) *Verdict {
 	for i := range plainErrs {
 		plainErrs[i] = errors.New(fmt.Sprintf("plain error of worker %d", i))
 	}
-	var calls []c08rCall
+	hist := &internHist{}
+	abortedErr := func() *abortErr { return abortedPtr(&aborted) }
 	var workers []*sim.RWorker
 	for wi, ops := range c.Workers {
 		wi, ops := wi, ops
@@ -121,6 +182,7 @@ func execC08R(t *testing.T, c C08RCase) *Verdict {
 					h = root
 				}
 				var ret error
+				callStamp := hist.tick()
 				switch op.Kind {
 				case "errf":
 					ret = h.HandleErrorf(span, "error from worker %d", wi)
@@ -133,11 +195,27 @@ func execC08R(t *testing.T, c C08RCase) *Verdict {
 				case "reporter-error":
 					ret = h.ReporterError()
 				}
-				recordC08R(&calls, c08rCall{wi, op, ret})
+				retStamp := hist.tick()
+				code := 99
+				switch {
+				case ret == nil:
+					code = 0
+				case ret == error(abortedErr()):
+					code = 1
+				case ret == reporter.ErrInvalidSource:
+					code = 2
+				default:
+					for i, pe := range plainErrs {
+						if ret == pe {
+							code = 10 + i
+						}
+					}
+				}
+				hist.add(porcupine.Operation{ClientId: wi, Input: c08rIn{wi, op.Kind, op.Root}, Call: callStamp, Output: code, Return: retStamp})
 			}
 		}})
 	}
-	out := sim.RunHBFree(sim.RConfig{Tape: c.Tape, MaxSteps: 2000}, workers)
+	out := sim.RunHBFree(sim.RConfig{Tape: c.Tape, Disabled: setOf(c.Disabled), MaxSteps: 2000}, workers)
 	st.Case(fmt.Sprintf("%v|%d|%d", c.Workers, c.AbortAt, out.TraceHash), nErr > 0 && len(c.Workers) > 1)
 	v := func(class, format string, args ...any) *Verdict {
 		x := viol(class, format, args...)
@@ -156,68 +234,29 @@ func execC08R(t *testing.T, c C08RCase) *Verdict {
 	if afterAbort > 0 {
 		return v("C08/error-after-abort", "%d error(s) reached the reporter after it had returned an error", afterAbort)
 	}
-	// Replay the calls, in the order they completed, against the model.
-	mroot := &handlerModel{}
-	msubs := make([]*handlerModel, len(c.Workers))
-	for i := range msubs {
-		msubs[i] = &handlerModel{}
-	}
-	mErrCalls, mWarnCalls := 0, 0
-	var mAbort error
-	rootHandle := func(positional bool, plain error) error {
-		if mroot.err != nil {
-			return mroot.err
+	// The operations are not atomic (the build puts a scheduling point before
+	// every lock acquisition of reporter.go), so the recorded history is checked
+	// for linearizability against the latch/sub-handler model.
+	switch porcupine.CheckOperationsTimeout(c08rModel(c.AbortAt), hist.ops, 20*time.Second) {
+	case porcupine.Illegal:
+		var lines []string
+		for _, op := range hist.ops {
+			lines = append(lines, fmt.Sprintf("w%d [%d,%d] %+v -> %v", op.ClientId, op.Call, op.Return, op.Input, op.Output))
 		}
-		if !positional {
-			mroot.err = plain
-			return plain
-		}
-		mroot.errsReported = true
-		mErrCalls++
-		if c.AbortAt > 0 && mErrCalls == c.AbortAt {
-			mAbort = aborted
-			mroot.err = mAbort
-		}
-		return mroot.err
-	}
-	for i, cl := range calls {
-		var want error
-		check := true
-		switch cl.op.Kind {
-		case "errf", "plain":
-			positional := cl.op.Kind == "errf"
-			want = rootHandle(positional, plainErrs[cl.worker])
-			if !cl.op.Root {
-				m := msubs[cl.worker]
-				if positional {
-					m.errsReported = true
-				}
-				m.err = want
-			}
-		case "warnf":
-			mWarnCalls++
-			check = false
-		case "error":
-			if cl.op.Root {
-				want = mroot.Error()
-			} else {
-				want = msubs[cl.worker].Error()
-			}
-		case "reporter-error":
-			if cl.op.Root {
-				want = mroot.err
-			} else {
-				want = msubs[cl.worker].err
-			}
-		}
-		if check && cl.ret != want {
-			return v("C08/handler-result-differs-from-model", "call %d (worker %d, %s, root=%v) returned %v, the latch/sub-handler model says %v", i, cl.worker, cl.op.Kind, cl.op.Root, cl.ret, want)
-		}
-	}
-	if nErr != mErrCalls || nWarn != mWarnCalls {
-		return v("C08/reporter-call-count", "the reporter saw %d errors and %d warnings, the model %d and %d", nErr, nWarn, mErrCalls, mWarnCalls)
+		return v("C08/handler-history-not-linearizable", "no sequential execution of the abort-latch / sub-handler model explains what the callers saw (abort at error %d; codes: 0 nil, 1 abort error, 2 ErrInvalidSource, 10+i plain error of worker i):\n%s", c.AbortAt, strings.Join(lines, "\n"))
+	case porcupine.Unknown:
+		st.Probe("porcupine-timeout")
 	}
 	return nil
+}
+
+//go:norace
+func abortedPtr(p *error) *abortErr {
+	if *p == nil {
+		return nil
+	}
+	a, _ := (*p).(*abortErr)
+	return a
 }
 
 func TestC08R(t *testing.T) {
